@@ -26,7 +26,9 @@
 (*       i.e. a re-printed character always follows a re-positioning after a newline, a      *)
 (*       newline inside a line is always followed by one of these forms, and after the       *)
 (*       re-print only colour/erase/padding may precede the next letter.                     *)
-(*     etx  a Ctrl-C, anywhere in either framing: the read must fail with "Interrupted".     *)
+(*     etx  a Ctrl-C, anywhere in either framing -- also inside an unfinished escape sequence  *)
+(*          of the Windows framing (item.b = ESC, ESC [, ESC [ params): the read must fail     *)
+(*          with "Interrupted".                                                                *)
 (*  2. TRANSPORT: Deliver(n) hands the first n pending bytes to the reader as one chunk      *)
 (*     (every chunking, including cuts inside escape sequences and between '!' and LF).      *)
 (*  3. READERS, transcribed from the Go code: TmuxTurn = one turn of readLine's loop,        *)
@@ -96,7 +98,7 @@ Render(it, md) ==
                           WithWraps(IF it.n > 0 THEN SubSeq(full, 1, it.n) ELSE full, it.w)
       [] it.k = "csi"  -> <<ESC, LB>> \o it.b \o it.c
       [] it.k = "bang" -> <<BANG>>
-      [] it.k = "etx"  -> <<ETX>>
+      [] it.k = "etx"  -> it.b \o <<ETX>>     \* b: an unfinished escape sequence the Ctrl-C falls into (Windows framing)
       [] OTHER         -> it.b          \* let txt pad nl dup stray
 
 CsiParamOK(p) == \A i \in 1..Len(p) : IsDigit(p[i]) \/ p[i] \in {59, 63}       \* digits ; ?
@@ -129,7 +131,9 @@ WellFormed(it, md) ==
       [] it.k = "dup"   -> md = "win" /\ Len(it.b) = 1
       [] it.k = "stray" -> md = "win" /\ Len(it.b) = 1 /\ IsLetter(it.b[1])
       [] it.k = "bang"  -> md = "win"
-      [] it.k = "etx"   -> TRUE
+      [] it.k = "etx"   -> \/ it.b = <<>>
+                           \/ /\ md = "win" /\ Len(it.b) >= 1 /\ it.b[1] = ESC
+                              /\ (Len(it.b) = 1 \/ (Len(it.b) >= 2 /\ it.b[2] = LB /\ CsiParamOK(RestOf(it.b, 2))))
       [] OTHER          -> FALSE
 
 -----------------------------------------------------------------------------
@@ -237,9 +241,9 @@ ProduceTerm(it, nt) ==       \* nt: TYPE of the next line
     /\ gs' = "free" /\ pt' = FALSE /\ ptxt' = <<>>
 
 ProduceEtx(it) ==
-    /\ it.k = "etx" /\ WithEtx /\ ph \in {"pre", "line", "tail"}
+    /\ it.k = "etx" /\ WithEtx /\ ph \in {"pre", "line", "tail"} /\ WellFormed(it, mode)
     /\ Emit(it)
-    /\ pe' = Append(pe, Len(pend) + 1)
+    /\ pe' = Append(pe, Len(pend) + Len(it.b) + 1)      \* the Ctrl-C itself completes the unit
     /\ want' = [want EXCEPT ![Len(want)].res = "int", ![Len(want)].fin = TRUE]
     /\ ph' = "dead"
     /\ UNCHANGED <<ln, gs, pt, ptxt, ltyp>>
@@ -441,7 +445,8 @@ ReaderStep == Start \/ TmuxTurn \/ WinTurnBegin \/ WinByte \/ WinTurnEnd
 (* The finite item universe of the exhaustive configurations.                                 *)
 Universe ==
     {Item("let", <<c>>) : c \in PayBytes \cup {HASH, COLON} \cup UNION {{t[i] : i \in 1..Len(t)} : t \in LineTypes}}
-    \cup {Item("term", <<>>), Item("term", <<LF>>), Item("wrap", <<>>), Item("bang", <<>>), Item("etx", <<>>)}
+    \cup {Item("term", <<>>), Item("term", <<LF>>), Item("wrap", <<>>), Item("bang", <<>>), Item("etx", <<>>),
+          Item("etx", <<ESC>>), Item("etx", <<ESC, LB>>), Item("etx", <<ESC, LB, 49, 59, 50>>)}
     \cup {Item("txt", b) : b \in TxtSet}
     \cup {StItem(s[1], s[2], s[3], s[4], s[5]) : s \in StSet}
     \cup {CsiItem(s[1], s[2]) : s \in CsiSet}
